@@ -168,6 +168,13 @@ class Ctx:
     # ------------------------------------------------------------ extraction + driver
     def build_driver(self):
         ext = os.path.join(DRIVER, 'ext')
+        # the executable models (no proofs) that the driver is extracted from; incremental
+        self.ensure_makefile()
+        rc, out, dt0 = sh('make -j16 Arena.vo Colls.vo Parts.vo VecCap.vo Str.vo Pool.vo gen/Bumping.vo gen/SizeCfg.vo gen/LibArith.vo', cwd=COQ, timeout=900)
+        if rc != 0:
+            self.problems.append(('extraction', 'the models do not compile:\n' + out[-800:]))
+            self.say('models FAILED to compile')
+            return False
         rc, out, dt = sh('coqc -Q ../../coq BS Extract.v', cwd=ext, timeout=600)
         if rc != 0:
             self.problems.append(('extraction', out[-800:]))
